@@ -165,6 +165,9 @@ def _shared_objects(shared_env, envs):
         if trees and id(trees) not in seen:
             seen.add(id(trees))
             for key, tree in sorted(trees.items(), key=lambda kv: repr(kv[0])):
+                if key[0] == 'tpl':
+                    out.append(('tpl[%s|%s]' % (key[1], (key[2] or '')[:60]), tree))
+                    continue
                 out.append(('tree[%s|%s]' % (key[0], (key[1] or key[2] or '')[:40]), tree))
     return out
 
